@@ -208,6 +208,7 @@ class _SchedResultQueue:
         self.acks = [0] * n            # handshake requests sent and not yet answered
         self.stopped = [False] * n
         self.log = []                  # (worker, kind) in arrival order
+        self.events = []               # fault-level trace: ("arrive", index among the candidates, worker) | ("dead", worker) | ("timeout",)
         self.dead = set()
 
     # ---- worker side
@@ -232,8 +233,15 @@ class _SchedResultQueue:
         w = self.chooser(cands)
         if w is None:                  # the schedule says: this poll of the result queue times out
             self.log.append((-1, "timeout"))
+            self.events.append(("timeout",))
             raise queue.Empty
-        obj = self._get_from(w, timeout)
+        try:
+            obj = self._get_from(w, timeout)
+        except queue.Empty:
+            if w in self.dead:
+                self.events.append(("dead", w))
+            raise
+        self.events.append(("arrive", sorted(cands).index(w), w))
         self.pending[w] -= 1
         data = obj[1][0] if isinstance(obj[1], tuple) else None
         if isinstance(data, _IterableDatasetStopIteration):
